@@ -3,6 +3,7 @@
 package gogen
 
 import (
+	"go/ast"
 	"go/constant"
 	"go/token"
 	"go/types"
@@ -48,4 +49,44 @@ func VerifH_SMOKE_outOfRange() {
 	vp.Assert("SMOKE.outOfRange", got == want)
 	vp.Cover("SMOKE.in", !got)
 	vp.Cover("SMOKE.out", got)
+}
+
+type verifImporter struct{}
+
+func (verifImporter) Import(path string) (*types.Package, error) {
+	return nil, syscallENOENT
+}
+
+var syscallENOENT = verifErr("no imports in harness")
+
+type verifErr string
+
+func (e verifErr) Error() string { return string(e) }
+
+// verifNewPkg builds a default-configured package without touching the file system.
+func verifNewPkg() *Package {
+	conf := &Config{Importer: verifImporter{}, HandleErr: func(err error) { panic(err) }}
+	return NewPackage("", "main", conf)
+}
+
+func verifUntypedInt(c constant.Value) *Element {
+	return &Element{Val: &ast.BasicLit{Kind: token.INT, Value: "c"}, Type: types.Typ[types.UntypedInt], CVal: c}
+}
+
+func VerifH_SMOKE_binop() {
+	pkg := verifNewPkg()
+	cb := pkg.CB()
+	a := vp.ConstInt("a")
+	b := vp.ConstInt("b")
+	var ret *Element
+	cl := vp.Try(func() {
+		cb.Val(verifUntypedInt(a)).Val(verifUntypedInt(b)).BinaryOp(token.ADD)
+		ret = cb.InternalStack().Pop()
+	})
+	vp.Assert("SMOKE.binop.noerr", cl == vp.NoPanic)
+	if cl == vp.NoPanic {
+		vp.Observe("cval", ret.CVal)
+		vp.Observe("type", ret.Type)
+		vp.Assert("SMOKE.binop.val", constant.Compare(ret.CVal, token.EQL, constant.BinaryOp(a, token.ADD, b)))
+	}
 }
